@@ -2,7 +2,6 @@ SPECIFICATION Spec
 CONSTANTS
   Tier = "quick"
   Emit = "accepted"
-INVARIANT InvRefLaws
-INVARIANT InvRefPermInvariant
+  Laws = "c10"
 INVARIANT InvAlg
 CHECK_DEADLOCK FALSE
